@@ -129,7 +129,7 @@ pub struct Ctx {
     pub rule: Mutex<String>,
     pub assumptions: Mutex<Vec<String>>,
     pub extra: Mutex<BTreeMap<String, Value>>,
-    slots: Vec<Mutex<Option<(Instant, String, String)>>>,
+    slots: Vec<Mutex<Option<(Instant, String, String, usize, f64)>>>,
     done: AtomicBool,
     pub strict: bool,
 }
@@ -247,7 +247,8 @@ impl Ctx {
 
     // ---- watchdog ----
     pub fn slot_begin(&self, tid: usize, stage: &str, case_json: impl FnOnce() -> String) {
-        *self.slots[tid % 64].lock().unwrap() = Some((Instant::now(), stage.to_string(), case_json()));
+        let me = unsafe { libc::pthread_self() } as usize;
+        *self.slots[tid % 64].lock().unwrap() = Some((Instant::now(), stage.to_string(), case_json(), me, thread_cpu_secs(me).unwrap_or(0.0)));
     }
     pub fn slot_end(&self, tid: usize) {
         *self.slots[tid % 64].lock().unwrap() = None;
@@ -255,7 +256,7 @@ impl Ctx {
 
     fn watchdog(&self) {
         let limit = Duration::from_secs(
-            std::env::var("VERIF_HANG_SECS").ok().and_then(|s| s.parse().ok()).unwrap_or(60),
+            std::env::var("VERIF_HANG_SECS").ok().and_then(|s| s.parse().ok()).unwrap_or(90),
         );
         while !self.done.load(Ordering::SeqCst) {
             std::thread::sleep(Duration::from_millis(500));
@@ -263,7 +264,17 @@ impl Ctx {
                 let stuck = {
                     let g = slot.lock().unwrap();
                     match &*g {
-                        Some((t, stage, case)) if t.elapsed() > limit => Some((stage.clone(), case.clone())),
+                        Some((t, stage, case, th, cpu0)) if t.elapsed() > limit => {
+                            // Wall-clock alone raises false alarms on an overloaded machine: the case
+                            // counts as stuck only if its thread has really burnt CPU for half the limit
+                            // (or if ten times the limit has passed, e.g. a deadlock that burns nothing).
+                            let burnt = thread_cpu_secs(*th).map(|c| c - cpu0).unwrap_or(f64::MAX);
+                            if burnt > limit.as_secs_f64() / 2.0 || t.elapsed() > limit * 10 {
+                                Some((stage.clone(), case.clone()))
+                            } else {
+                                None
+                            }
+                        }
                         _ => None,
                     }
                 };
@@ -284,13 +295,16 @@ impl Ctx {
         let status = std::process::Command::new("sh")
             .arg("-c")
             .arg(format!(
-                "ulimit -v 8000000; exec timeout 150 {} {} --replay {}",
+                "ulimit -v 8000000; ulimit -t 120; exec timeout 3600 {} {} --replay {}",
                 exe.display(),
                 self.prop,
                 path
             ))
             .status();
-        let code = status.ok().and_then(|s| s.code());
+        // killed by the CPU-time limit (SIGXCPU / SIGKILL) = it really burnt 120 s of CPU on one case
+        use std::os::unix::process::ExitStatusExt;
+        let cpu_killed = status.as_ref().ok().map(|s| matches!(s.signal(), Some(24) | Some(9)) || matches!(s.code(), Some(152) | Some(137))).unwrap_or(false);
+        let code = if cpu_killed { Some(124) } else { status.ok().and_then(|s| s.code()).map(|c| if c == 124 { 125 } else { c }) };
         let hang_is_violation = matches!(self.prop.as_str(), "C06" | "C09" | "C10");
         match code {
             Some(124) if hang_is_violation => {
@@ -422,6 +436,21 @@ impl Ctx {
             self.start.elapsed().as_secs_f64()
         );
         code
+    }
+}
+
+/// CPU time consumed so far by the given pthread (None if it cannot be read).
+fn thread_cpu_secs(thread: usize) -> Option<f64> {
+    unsafe {
+        let mut cid: libc::clockid_t = 0;
+        if libc::pthread_getcpuclockid(thread as libc::pthread_t, &mut cid) != 0 {
+            return None;
+        }
+        let mut ts = libc::timespec { tv_sec: 0, tv_nsec: 0 };
+        if libc::clock_gettime(cid, &mut ts) != 0 {
+            return None;
+        }
+        Some(ts.tv_sec as f64 + ts.tv_nsec as f64 / 1e9)
     }
 }
 
